@@ -246,4 +246,9 @@ theorem error_roundtrip (t : Idl) (hal : AliasesOk (aliasesOf t)) (f : Nat) (e :
     correspondence streams for an input on which the changed code violates the property. -/
 theorem modelled_code_unchanged : Varlink.Extracted.code_C08 = Varlink.ExpectedCode.code_C08 := by decide
 
+/-- no declaration (function, method, type, constant, variable) has been added to or removed from the
+    fingerprinted source files since the models were validated: a new method or `init` can change behaviour
+    without touching the text of any existing declaration -/
+theorem declarations_known : Varlink.Extracted.declarationSet = Varlink.ExpectedCode.declarationSet := by decide
+
 end Varlink.C08
